@@ -28,9 +28,25 @@ class FakeOpener:
     def __init__(self):
         self.requests = []
         self.next_body = b""
+        self.fail_next = None     # HTTP status (int) or "url": the next request is recorded, then fails
 
     def open(self, request, *a, **kw):
         self.requests.append(request)
+        if self.fail_next is not None:
+            import urllib.error
+            kind, self.fail_next = self.fail_next, None
+            if kind == "url":
+                raise urllib.error.URLError("connection refused")
+            import email.message
+            import io
+
+            class _ErrBody(io.BytesIO):       # what urllib hands out as err.fp: the http response object
+                _method = request.get_method()
+
+                def getheaders(self):
+                    return []
+            raise urllib.error.HTTPError(request.get_full_url(), int(kind), "failure", email.message.Message(),
+                                         _ErrBody(b'{"error": "failure"}'))
         return FakeResponse(request.get_method(), 200, self.next_body)
 
 
